@@ -65,7 +65,15 @@ size_t	nondet_size_t(void);
 #ifdef VERIF_CANARY
 #define REACH(name)		__CPROVER_assert(0, "canary-reach: " name)
 #else
-#define REACH(name)		((void)0)
+/*
+ * In the ordinary build every REACH point carries a reach-probe: an
+ * assertion that FAILS exactly when the point is reachable.  The driver
+ * requires every probe of the entry harness to fail (a probe that holds
+ * means the run was vacuous: exit 2) and does not count probes as
+ * obligations.
+ */
+#define REACH(name) \
+    do { if (!nondet_bool()) __CPROVER_assert(0, "reach-probe: " name); } while (0)
 #endif
 
 #elif defined(VERIF_NATIVE)
